@@ -93,7 +93,16 @@ structure Inv (l0 : ℝ) (p0 : P) (st : St P S ℝ) : Prop where
   live_p : st.live = true → st.p = p0 ∧ st.loss = l0 ∧ st.solves = st.rc
   dead : st.live = false → st.solves = st.rc + 1 ∧ (st.loss ≤ l0 ∨ st.rc = reject)
 
-variable (hinv : ∀ p d, pr.retr (pr.retr p d) (pr.neg d) = p)
+/-- **The retraction contract, restricted to what can occur**: undoing a step *that the solver actually returned at that
+point* gives the point back. (The unrestricted `∀ p d, retr (retr p d) (neg d) = p` holds for Euclidean parameters; for
+Lie-group parameters it holds exactly only for steps on the closed-form branch of `Exp` — see `so3_retrOK` etc.) -/
+def RetrOK (pr : Prob P D ℝ) (e : Env P D S ℝ) : Prop :=
+  ∀ k p d, e.solve k p = some d → pr.retr (pr.retr p d) (pr.neg d) = p
+
+theorem RetrOK.of_forall {pr : Prob P D ℝ} (h : ∀ p d, pr.retr (pr.retr p d) (pr.neg d) = p) (e : Env P D S ℝ) :
+    RetrOK pr e := fun _ p d _ => h p d
+
+variable (hinv : RetrOK pr e)
 include hinv
 
 theorem body_inv (l0 : ℝ) (p0 : P) (st : St P S ℝ) (h : Inv pr reject l0 p0 st) :
@@ -117,10 +126,10 @@ theorem body_inv (l0 : ℝ) (p0 : P) (st : St P S ℝ) (h : Inv pr reject l0 p0 
     have hp := h.live_p hl
     refine ⟨h.last_eq, ?_, ?_, ?_, ?_⟩
     · simp only [rejSt]; omega
-    · simp only [rejSt]; rw [hinv, h.last_eq, ← hp.2.1]; exact h.loss_true
+    · simp only [rejSt]; rw [hinv _ _ _ hs, h.last_eq, ← hp.2.1]; exact h.loss_true
     · intro _
       simp only [rejSt]
-      rw [hinv]
+      rw [hinv _ _ _ hs]
       exact ⟨hp.1, h.last_eq, by rw [hp.2.2]⟩
     · intro hh; simp [rejSt] at hh
   · rw [hb]
@@ -277,7 +286,8 @@ theorem loop_prefix (p0 : P) (l0 : ℝ) (ds : Nat → D) (s0 : S) (j : Nat)
     have hs := hsolve j (by omega)
     have hw := hworse j (by omega)
     have hr : j < reject := by omega
-    simp only [body, le_real, le_refl, decide_true, Bool.and_self, if_true, hs, lt_real, hw, hr, hinv,
+    have hi := hinv j p0 (ds j) hs
+    simp only [body, le_real, le_refl, decide_true, Bool.and_self, if_true, hs, lt_real, hw, hr, hi,
       sAfter_succ]
 
 
@@ -422,5 +432,173 @@ def InBounds (kd : Kind) (h : Hyper ℝ) (s : SState ℝ) : Prop :=
 def exProb : Prob ℝ ℝ ℝ := { lossAt := fun x => x * x, retr := fun x d => x + d, neg := fun d => -d }
 def exEnv : Env ℝ ℝ Nat ℝ :=
   { solve := fun i x => if i < 2 then some (-3 * x) else some (-x), upd := fun s _ _ _ => s + 1 }
+
+
+/-! ### structural facts about calls and histories (plumbing used by `Proofs/Props/C08.lean`) -/
+section plumbing
+variable {P D S : Type} (pr : Prob P D ℝ) (reject : Nat) (e : Env P D S ℝ)
+
+/-- **The cache is transparent**: starting a call from the cached loss or recomputing the loss at the
+given parameters gives the same call (the cache is only an optimisation) — provided the cache is true. -/
+theorem cache_transparent (p : P) (s : S) :
+    lmStep pr reject e (some (pr.lossAt p)) p s = lmStep pr reject e none p s := rfl
+
+/-- **Nothing but (parameters, param group, cached loss) carries over between calls**: a call does not
+read the previous `reject_count` or `last` (a stale counter cannot influence the next call). -/
+theorem lmCall_stateless (o o' : Opt P S ℝ) (hp : o.p = o'.p) (hs : o.s = o'.s) (hc : o.cached = o'.cached) :
+    lmCall pr reject o e = lmCall pr reject o' e := by
+  unfold lmCall; rw [hp, hs, hc]
+
+/-- **Re-using an optimizer object = continuing from its state**: a history split anywhere. -/
+theorem lmRun_append (o : Opt P S ℝ) (es₁ es₂ : List (Env P D S ℝ)) :
+    lmRun pr reject o (es₁ ++ es₂) = lmRun pr reject (lmRun pr reject o es₁) es₂ := by
+  unfold lmRun; rw [List.foldl_append]
+
+/-- the strategy update reads the *current* param group only: editing `pg` between updates simply restarts the
+fold from the edited state (no hidden copy of an earlier damping / threshold can matter) -/
+theorem stratRun_append (kd : Kind) (h : Hyper ℝ) (s : SState ℝ) (qs₁ qs₂ : List (ℝ × ℝ)) :
+    stratRun kd h s (qs₁ ++ qs₂) = stratRun kd h (stratRun kd h s qs₁) qs₂ := by
+  unfold stratRun; rw [List.foldl_append]
+
+/-- **Two optimizers sharing one strategy object do not interact**: the strategy has no state of its own (all of it
+lives in the param group), so interleaving the updates of two param groups in any order equals running each
+group's updates alone. `evs`: which group (`true` = first) is updated with which quality. -/
+theorem shared_strategy_independent (kd : Kind) (h : Hyper ℝ) (evs : List (Bool × ℝ × ℝ)) (s₁ s₂ : SState ℝ) :
+    evs.foldl (fun (st : SState ℝ × SState ℝ) ev =>
+        if ev.1 then (stratUpd kd h st.1 ev.2.1 ev.2.2, st.2) else (st.1, stratUpd kd h st.2 ev.2.1 ev.2.2)) (s₁, s₂) =
+      (stratRun kd h s₁ ((evs.filter (fun ev => ev.1)).map (fun ev => ev.2)),
+       stratRun kd h s₂ ((evs.filter (fun ev => !ev.1)).map (fun ev => ev.2))) := by
+  induction evs generalizing s₁ s₂ with
+  | nil => rfl
+  | cons ev evs ih =>
+    obtain ⟨b, nd⟩ := ev
+    cases b with
+    | true => simp only [List.foldl_cons, if_true, List.filter_cons, Bool.not_true, List.map_cons]; rw [ih]; simp [stratRun]
+    | false => simp only [List.foldl_cons, Bool.false_eq_true, if_false, List.filter_cons, Bool.not_false]; rw [ih]; simp [stratRun]
+
+
+
+/-- **Interleaved use of independent objects = each used alone** (any state type, any step function): a history that
+alternates between two optimizers (an original and its copy, two optimizers of different kind, …) factors into the two
+separate histories. -/
+theorem interleave_independent {σ ε : Type} (f : σ → ε → σ) (evs : List (Bool × ε)) (a b : σ) :
+    evs.foldl (fun (st : σ × σ) ev => if ev.1 then (f st.1 ev.2, st.2) else (st.1, f st.2 ev.2)) (a, b) =
+      (((evs.filter (fun ev => ev.1)).map (fun ev => ev.2)).foldl f a,
+       ((evs.filter (fun ev => !ev.1)).map (fun ev => ev.2)).foldl f b) := by
+  induction evs generalizing a b with
+  | nil => rfl
+  | cons ev evs ih =>
+    obtain ⟨bb, x⟩ := ev
+    cases bb with
+    | true => simp only [List.foldl_cons, if_true, List.filter_cons, Bool.not_true]; rw [ih]; simp
+    | false => simp only [List.foldl_cons, Bool.false_eq_true, if_false, List.filter_cons, Bool.not_false]; rw [ih]; simp
+
+/-- … instantiated: an optimizer and its copy (same state) used interleaved each follow `lmRun` on their own calls -/
+theorem copies_independent (o : Opt P S ℝ) (evs : List (Bool × Env P D S ℝ)) :
+    evs.foldl (fun (st : Opt P S ℝ × Opt P S ℝ) ev =>
+        if ev.1 then (lmCall pr reject st.1 ev.2, st.2) else (st.1, lmCall pr reject st.2 ev.2)) (o, o) =
+      (lmRun pr reject o ((evs.filter (fun ev => ev.1)).map (fun ev => ev.2)),
+       lmRun pr reject o ((evs.filter (fun ev => !ev.1)).map (fun ev => ev.2))) :=
+  interleave_independent (lmCall pr reject) evs o o
+
+theorem lmRun_take_succ (o : Opt P S ℝ) (es : List (Env P D S ℝ)) (k : Nat) (hk : k < es.length) :
+    lmRun pr reject o (es.take (k + 1)) = lmCall pr reject (lmRun pr reject o (es.take k)) es[k] := by
+  unfold lmRun
+  rw [List.take_succ_eq_append_getElem hk, List.foldl_append]
+  rfl
+
+theorem gnRun_take_succ (o : GNOpt P ℝ) (svs : List (P → Option D)) (k : Nat) (hk : k < svs.length) :
+    gnRun pr o (svs.take (k + 1)) = gnStep pr svs[k] (gnRun pr o (svs.take k)) := by
+  unfold gnRun
+  rw [List.take_succ_eq_append_getElem hk, List.foldl_append]
+  rfl
+
+theorem lmCallG_fst (gsolve : Nat → P → Option D) (on : Opt P S ℝ × Nat) (upd : S → ℝ → ℝ → D → S) :
+    (lmCallG pr reject gsolve on upd).1 =
+      lmCall pr reject on.1 { solve := fun i p => gsolve (on.2 + i) p, upd := upd } := rfl
+
+end plumbing
+
+section defect
+variable {P D S : Type} (pr : Prob P D ℝ) (reject : Nat) (e : Env P D S ℝ)
+
+/-! ### the retraction contract up to a defect (`restored ≈ original`) -/
+
+/-- what the approximate loop theorems assume: a distance on parameters (only `dist p p = 0` and the triangle inequality
+are used), the loss is `L`-Lipschitz for it, and undoing a step the solver returned misses the original point by at most
+`δ` (round-off of the retraction; for SO3 see `so3_retr_defect`). `δ = 0` is the exact contract `RetrOK`. -/
+structure Defect (pr : Prob P D ℝ) (e : Env P D S ℝ) (dist : P → P → ℝ) (L δ : ℝ) : Prop where
+  dist_self : ∀ p, dist p p = 0
+  dist_tri : ∀ a b c, dist a c ≤ dist a b + dist b c
+  delta_nonneg : 0 ≤ δ
+  lip_nonneg : 0 ≤ L
+  lip : ∀ p q, |pr.lossAt p - pr.lossAt q| ≤ L * dist p q
+  restore : ∀ k p d, e.solve k p = some d → dist (pr.retr (pr.retr p d) (pr.neg d)) p ≤ δ
+
+/-- loop invariant with a defect: `l0` the loss the call started from, `p0` the parameters it was given -/
+structure InvD (dist : P → P → ℝ) (δ : ℝ) (l0 : ℝ) (p0 : P) (st : St P S ℝ) : Prop where
+  last_eq : st.last = l0
+  rc_le : st.rc ≤ reject
+  live_p : st.live = true → st.loss = l0 ∧ st.solves = st.rc ∧ dist st.p p0 ≤ st.rc * δ
+  dead : st.live = false → st.solves = st.rc + 1 ∧ (st.loss ≤ l0 ∨ st.rc = reject) ∧
+    (st.loss = pr.lossAt st.p ∨ (st.loss = l0 ∧ dist st.p p0 ≤ st.rc * δ))
+
+theorem body_invD (dist : P → P → ℝ) (L δ : ℝ) (hD : Defect pr e dist L δ) (l0 : ℝ) (p0 : P) (st : St P S ℝ)
+    (h : InvD pr reject dist δ l0 p0 st) : InvD pr reject dist δ l0 p0 (body pr reject e st) := by
+  rcases body_spec pr reject e st with ⟨_, hb⟩ | ⟨hl, hc, _⟩ | ⟨hl, hc, hs, hb⟩ | ⟨d, hl, hc, hs, hw, hr, hb⟩ |
+      ⟨d, hl, hc, hs, hw, hb⟩
+  · rw [hb]; exact h
+  · exfalso
+    have := h.live_p hl
+    rw [h.last_eq, this.1] at hc
+    exact hc le_rfl
+  · rw [hb]
+    have hp := h.live_p hl
+    refine ⟨h.last_eq, h.rc_le, ?_, ?_⟩
+    · intro hh; simp [raiseSt] at hh
+    · intro _
+      refine ⟨by simp [raiseSt, hp.2.1], Or.inl (by simp [raiseSt, hp.1]), Or.inr ⟨by simp [raiseSt, hp.1], ?_⟩⟩
+      simpa [raiseSt] using hp.2.2
+  · rw [hb]
+    have hp := h.live_p hl
+    refine ⟨h.last_eq, ?_, ?_, ?_⟩
+    · simp only [rejSt]; omega
+    · intro _
+      refine ⟨by simp only [rejSt]; exact h.last_eq, by simp only [rejSt]; rw [hp.2.1], ?_⟩
+      simp only [rejSt]
+      have h1 := hD.restore _ _ _ hs
+      have h2 := hD.dist_tri (pr.retr (pr.retr st.p d) (pr.neg d)) st.p p0
+      push_cast
+      nlinarith [hp.2.2]
+    · intro hh; simp [rejSt] at hh
+  · rw [hb]
+    have hp := h.live_p hl
+    refine ⟨h.last_eq, h.rc_le, ?_, ?_⟩
+    · intro hh; simp [accSt] at hh
+    · intro _
+      refine ⟨by simp [accSt, hp.2.1], ?_, Or.inl rfl⟩
+      simp only [accSt]
+      by_cases h1 : st.last < pr.lossAt (pr.retr st.p d)
+      · right
+        have : ¬ st.rc < reject := fun h2 => hw ⟨h1, h2⟩
+        have := h.rc_le
+        omega
+      · left; rw [← h.last_eq]; exact not_lt.mp h1
+
+theorem loop_invD (dist : P → P → ℝ) (L δ : ℝ) (hD : Defect pr e dist L δ) (l0 : ℝ) (p0 : P) (n : Nat) (st : St P S ℝ)
+    (h : InvD pr reject dist δ l0 p0 st) : InvD pr reject dist δ l0 p0 (loop pr reject e n st) := by
+  induction n generalizing st with
+  | zero => exact h
+  | succ n ih => rw [loop_succ]; exact ih _ (body_invD pr reject e dist L δ hD l0 p0 st h)
+
+/-- the state at the top of the loop when the call starts from the loss `l0` (cached or freshly computed) -/
+theorem start_invD (dist : P → P → ℝ) (L δ : ℝ) (hD : Defect pr e dist L δ) (cached : Option ℝ) (p : P) (s : S) :
+    InvD pr reject dist δ (start pr cached p s : St P S ℝ).last p (start pr cached p s) := by
+  refine ⟨rfl, by cases cached <;> simp [start], fun _ => ⟨by cases cached <;> rfl, by cases cached <;> rfl, ?_⟩,
+    fun h => by cases cached <;> simp [start] at h⟩
+  have : (start pr cached p s : St P S ℝ).p = p ∧ (start pr cached p s : St P S ℝ).rc = 0 := by cases cached <;> exact ⟨rfl, rfl⟩
+  rw [this.1, this.2, hD.dist_self]; simp
+
+end defect
 
 end PP.LMLoop
